@@ -27,7 +27,7 @@ T = [
  ("pdf_filters.rs", 160, 160, "outside", "location passed by the verification hook verif_predict (cfg feature verif)"),
  ("pdf_filters.rs", 170, 262, "outside", "LZWDecode / decode_bytes_lzw: the type is never instantiated by decode_stream or any other code path (filters supported: Flate, ASCIIHex, ASCII85), and no property names LZW"),
  ("pdf_filters.rs", 369, 369, "outside", "/Predictor 15 (PNG optimum) is outside C07's six predictors (stated assumption of C07)"),
- ("pdf_filters.rs", 517, 517, "gap", "ASCII85 staging: in_group bookkeeping after a digit decides where `z` is legal; only observable with `z` following a partial group at particular offsets"),
+ ("pdf_filters.rs", 517, 517, "equivalent", "PROVED equivalent: the group counter is only read through `!= 0`, and 2k mod 5 / -(k mod 5) vanish exactly when k mod 5 does (Lemmas/A85Reject.lean a85_counter_plus2_equiv, a85_counter_minus1_equiv); the `z`-position family added while analysing it catches the non-equivalent siblings (%4, +0, reset at ~)"),
  ("pdf_obj.rs", 79, 79, "gap", "PDFObjContext::set_encrypted: see pdf_traverse_xref.rs:280"),
  ("pdf_obj.rs", 428, 428, "equivalent", "ReferenceP is only entered after the look-ahead has seen non-empty white space twice"),
  ("pdf_obj.rs", 518, 518, "equivalent", "`n.unwrap();` has no effect"),
@@ -57,31 +57,55 @@ T = [
  ("pdf_traverse_xref.rs", 500, 830, "outside", "log / exit message text and offsets used only in log lines"),
  ("pdf_type_check.rs", 105, 105, "outside", "initial value of the verification-only step counter (cfg feature verif)"),
  ("pdf_type_check.rs", 325, 339, "gap", "TypeCheck::new_refined / new_indirect no longer register their type in the context: the harness built every named type through one constructor"),
- ("pdf_type_check.rs", 613, 613, "gap", "unwind stops at a disjunction that has not been started (next_idx >= 0): needs a failing check followed, in the same pending set, by a not-yet-started disjunction"),
- ("pdf_type_check.rs", 637, 637, "gap", "unwind reports success on an empty stack; to be analysed with 613"),
+ ("pdf_type_check.rs", 613, 637, "equivalent", "PROVED equivalent for every configuration, graph, context, object and specification (Props/C08Unwind.lean unwind_mutants_equivalent: same verdict, error kind and work-loop count; both situations are reachable, witness theorems); the families added while analysing it catch the control mutant `> 1`"),
  ("pdf_type_check.rs", 992, 992, "equivalent", "unreachable arm (a key taken from the dictionary always has a value)"),
+ # --- operator set B only ---
+ ("pdf_file.rs", 320, 333, "outside", "XrefSectT::is_valid (free-list validation helper) is not called by the loader or any property's code path"),
+ ("pdf_content_streams.rs", 456, 456, "equivalent", "at end of input the next loop iteration's first parse fails with end-of-buffer exactly where the `break` left; same result"),
+ ("pdf_filters.rs", 148, 148, "equivalent", "pixel_bytes is already rounded up, so max(1, .) only matters for /Colors 0, where the row is empty and no neighbour is read"),
+ ("pdf_filters.rs", 272, 272, "outside", "/Predictor 15 is outside C07's six predictors"),
+ ("pdf_filters.rs", 289, 289, "equivalent", "predictor_geometry has already rejected every sample size other than 1, 2, 4, 8, 16"),
+ ("pdf_filters.rs", 384, 384, "equivalent", "index 0 is the row's filter-type byte: never emitted and never read as a neighbour (j > bytes_per_pixel is strict)"),
+ ("pdf_filters.rs", 462, 462, "equivalent", "hex2bin returns the slice it has written; a larger scratch buffer changes nothing"),
+ ("pdf_prim.rs", 566, 566, "outside", "NameT::is_empty has no caller in the crate"),
+ ("pdf_prim.rs", 649, 649, "equivalent", "after the `break` condition the window iterator is exhausted, so `continue` leaves the loop at its head"),
+ ("pdf_prim.rs", 743, 743, "equivalent", "same as 649 for OperatorP"),
+ ("pdf_traverse_xref.rs", 257, 257, "outside", "a classic section WITHOUT a trailer on the /Prev chain is used (original) or refused (mutant): malformed input outside C03/C04's well-formed histories; seen only by the correspondence run if generated - added to the corruption menu as a follow-up"),
+ ("pdf_traverse_xref.rs", 570, 570, "equivalent", "an object queued for the second pass is never already defined when its turn comes (identifiers are de-duplicated by the walk and object-stream members have generation 0 entries of type 2, which are not queued)"),
+ ("pdf_traverse_xref.rs", 679, 679, "equivalent", "RestrictView over a stream's own content span cannot fail"),
+ ("pdf_type_check.rs", 828, 828, "equivalent", "`continue` re-tests `seen.insert(id)` with the id just inserted, which is false: the loop ends as with `break`"),
+ ("pdf_type_check.rs", 993, 998, "equivalent", "993 is an unreachable arm; at 998 the result is already an error and the verdict (reject) cannot change"),
  ("rtps_prim.rs", 45, 237, "outside", "cursor restore of RTPS sub-parsers on failure: C20 speaks about accepted datagrams re-encoding and rejection; after a failed sub-parser the datagram is rejected and the buffer abandoned"),
 ]
 
 
 def classify(r):
     f = r["file"].split("/")[-1]
+    best = None
     for (sf, a, b, c, n) in T:
-        if f == sf and a <= r["line"] <= b:
-            return c, n
+        if f == sf and a <= r["line"] <= b and (best is None or b - a < best[0]):
+            best = (b - a, c, n)          # the narrowest matching range wins
+    if best: return best[1], best[2]
     return "untriaged", ""
 
 
 def main():
     rs = [json.loads(l) for l in open(os.path.join(ROOT, "mutation", "results.jsonl"))]
+    pb = os.path.join(ROOT, "mutation", "results_B.jsonl")
+    if os.path.exists(pb): rs += [json.loads(l) for l in open(pb)]
     rerun = {}
-    p = os.path.join(ROOT, "mutation", "rerun.jsonl")
-    if os.path.exists(p):
-        for l in open(p):
-            r = json.loads(l); rerun[r["id"]] = r
+    for nm in ("rerun.jsonl", "rerun_B.jsonl"):
+        p = os.path.join(ROOT, "mutation", nm)
+        if os.path.exists(p):
+            for l in open(p):
+                r = json.loads(l); rerun[r["id"]] = r
+    # a survivor of the first run that a strengthened check kills in the re-run counts as a closed gap
+    for r in rs:
+        if r["status"] == "survived" and r["id"] in rerun and rerun[r["id"]]["status"].startswith("killed") and classify(r)[0] != "gap":
+            r["_closed"] = True
     st = collections.Counter(r["status"].split(":")[0] for r in rs)
     out = ["# Mutation sweep (checklib/mutsweep.py) - summary", "",
-           "Single-token mutants (relational / equality / boolean / arithmetic operator swaps, literal n -> n+1, true <-> false, negated `if`, deleted statement) "
+           "Single-token mutants, two operator sets (A: relational / equality / boolean / arithmetic operator swaps, literal n -> n+1, true <-> false, negated `if`, deleted statement; B: < <-> >, n -> n-1, one operand of && / || dropped, break <-> continue, min <-> max, return Some -> None, * / %, .. <-> ..=, is_some/is_ok/is_empty flipped) "
            "of the non-test part of the 23 source files the properties are anchored in; one mutant per (line, operator kind). "
            "A mutant that does not compile is `stillborn`; one that fails the crate's own 132 tests is `test-killed` (not the kind of change the checks are for); "
            "the others are run through the quick tier of every check mapped to the file (VERIF_REPO = private worktree).", "",
@@ -94,10 +118,11 @@ def main():
     rows = collections.defaultdict(list)
     for r in surv:
         c, n = classify(r)
+        if r.get("_closed"): c, n = "gap", "(operator set B) same site as a set-A gap"
         cl[c] += 1
         rows[(c, r["file"], n)].append(r)
     out.append(f"* survivors by triage class: " + ", ".join(f"{k} {v}" for k, v in sorted(cl.items())))
-    gaps = [r for r in surv if classify(r)[0] == "gap"]
+    gaps = [r for r in surv if classify(r)[0] == "gap" or r.get("_closed")]
     closed = [r for r in gaps if r["id"] in rerun and rerun[r["id"]]["status"].startswith("killed")]
     out.append(f"* gaps: {len(gaps)} mutants; re-run after strengthening: {len(closed)} now killed, "
                f"{len([r for r in gaps if r['id'] in rerun and not rerun[r['id']]['status'].startswith('killed')])} still surviving, {len([r for r in gaps if r['id'] not in rerun])} not re-run yet")
@@ -105,7 +130,7 @@ def main():
     for (c, f, n), lst in sorted(rows.items()):
         lines = sorted(set(r["line"] for r in lst))
         after = ""
-        if c == "gap":
+        if c == "gap" or any(r.get("_closed") for r in lst):
             res = [rerun[r["id"]]["status"] if r["id"] in rerun else "not re-run" for r in lst]
             after = ", ".join(f"{k} x{v}" for k, v in collections.Counter(res).items())
         out.append(f"| {c} | {f.replace('src/', '')}:{','.join(map(str, lines))} | {len(lst)} | {n} | {after} |")
